@@ -203,6 +203,12 @@ func (w *World) resolveSpecType(pkg, name string) (*Sort, types.Type) {
 		return SReal, types.Typ[types.Float64]
 	case "bool":
 		return SBool, types.Typ[types.Bool]
+	case "byte", "uint8":
+		return SInt, types.Typ[types.Uint8]
+	case "uint32":
+		return SInt, types.Typ[types.Uint32]
+	case "any":
+		return SRef, types.NewInterfaceType(nil, nil)
 	case "set":
 		return arraySort(SInt, SBool), nil
 	case "bytes":
@@ -252,8 +258,32 @@ func (w *World) heapField(owner *types.Named, fld *types.Var) *Term {
 	return t
 }
 
+// canonType: a string that identifies a Go type independently of alias spelling (byte/uint8, rune/int32).
+func canonType(t types.Type) string {
+	t = types.Unalias(t)
+	switch u := t.(type) {
+	case *types.Basic:
+		if u.Kind() < types.UntypedBool && u.Kind() != types.Invalid {
+			return types.Typ[u.Kind()].Name()
+		}
+		return u.Name()
+	case *types.Pointer:
+		return "*" + canonType(u.Elem())
+	case *types.Slice:
+		return "[]" + canonType(u.Elem())
+	case *types.Array:
+		return fmt.Sprintf("[%d]%s", u.Len(), canonType(u.Elem()))
+	case *types.Named:
+		if u.Obj().Pkg() != nil {
+			return u.Obj().Pkg().Path() + "." + u.Obj().Name()
+		}
+		return u.Obj().Name()
+	}
+	return types.TypeString(t, nil)
+}
+
 func (w *World) typeTag(t types.Type) *Term {
-	k := types.TypeString(t, nil)
+	k := canonType(t)
 	if _, ok := w.typeTags[k]; !ok {
 		w.typeTags[k] = len(w.typeTags) + 1
 	}
